@@ -14,13 +14,17 @@ Mechanism keys: '<fmt>_<value class>_<stage>' for the format helpers (e.g. hp_su
 observed relates to expected (ratio, sign lost, raises ...), so a known-finding entry never matches a different failure.
 """
 import itertools
+import json
 import math
+import os
 import signal
 import struct
+import subprocess
+import sys
 import time
 from fractions import Fraction
 
-from .common import muted, rng, shard_slice, sgn, stable_hash
+from .common import muted, rng, shard_slice, sgn, stable_hash, run_dir, PYTHON, ROOT
 
 LEVEL = 'exploration'
 RULE = ('cases: (a) bit patterns -- all 2**16 half patterns exhaustively in both tiers; single/double: every exponent field x '
@@ -1041,6 +1045,9 @@ PER_MECHANISM = 3   # unknown violations recorded per (key, classifier fields); 
 def report(run, case, viols):
     seen = run.__dict__.setdefault('_mechanisms', {})
     for v in viols:
+        if sys.flags.optimize:
+            v['fields']['interpreter'] = '-O'
+            v['what'] += ' [interpreter run with PYTHONOPTIMIZE=%d: assert statements are stripped]' % sys.flags.optimize
         mech = stable_hash([v['key'], v['fields']])
         if seen.get(mech, 0) >= PER_MECHANISM:
             run.count('violations_same_mechanism_not_recorded')
@@ -1107,6 +1114,27 @@ def run_check(run, tier, seed, shard):
         sect[name] = dict(cases=ncases, evaluations=run.evaluations - e0, failures_incl_known=nviol)
         return ncases
 
+    if os.environ.get(OPT_CHILD_ENV) == '1':
+        # ---- the reduced pass executed by the child interpreter that the normal run starts with PYTHONOPTIMIZE=1
+        stripped = True
+        try:
+            assert False
+        except AssertionError:
+            stripped = False
+        if not (sys.flags.optimize and stripped):
+            run.inconclusive.append('the child interpreter is not running optimized (sys.flags.optimize=%r)' % (sys.flags.optimize,))
+            return
+        sweep('O_fpnum_arith', itertools.islice(arith_cases(tier, seed, ('O', 1)), 4000), lambda c: not (desc_is_zero(c['a']) and desc_is_zero(c['b'])),
+              lambda c: int(stable_hash([c['a'], c['b']]), 16), 997)
+        sweep('O_fpnum_histories', itertools.islice(history_cases(tier, seed, ('O', 1)), 300), lambda c: True,
+              lambda c: int(stable_hash([c['pool'], c['ops']]), 16), 97)
+        sweep('O_patterns_hp', (dict(kind='pattern', fmt='hp', pattern=hex(v)) for v in range(7, 1 << 16, 16)), lambda c: True,
+              lambda c: hash((1, 0) + _split(int(c['pattern'], 16))), 1009)
+        sweep('O_floats', itertools.islice(float_cases(tier, seed, (0, 1)), 0, None, 23), lambda c: True,
+              lambda c: hash((5,) + _split(struct.unpack('<Q', struct.pack('<d', float.fromhex(c['x'])))[0])), 1009)
+        run.extra['optimized_interpreter_pass'] = dict(asserts_stripped=True, sys_flags_optimize=sys.flags.optimize,
+                                                       **{k: v['evaluations'] for k, v in sect.items()})
+        return
     # (a) patterns
     classes = {}
     for fmt in FMTS:
@@ -1165,13 +1193,47 @@ def run_check(run, tier, seed, shard):
     sweep('fpnum_histories', hist(), lambda c: True, lambda c: int(stable_hash([c['pool'], c['ops']]), 16), 499)
     run.extra['history_class'] = hstat
     run.extra['sections'] = sect
+    # (g) the same helpers in an interpreter that strips assert statements (python -O / PYTHONOPTIMIZE=1): a reduced pass in a child
+    if shard is None or shard[0] == 0:
+        optimized_child(run, tier, seed)
     for name, s in sect.items():
         if s['evaluations'] == 0 and not run.too_many:
             run.inconclusive.append('section %s evaluated nothing' % name)
 
 
+OPT_CHILD_ENV = 'C12_OPTIMIZED_CHILD'
+
+
+def optimized_child(run, tier, seed):
+    """Start `check C12 --shard 0/1` in a child interpreter with PYTHONOPTIMIZE=1 (reduced workload, see run_check) and merge what it
+    observed; its violations carry interpreter='-O'."""
+    with run_dir() as d:
+        out = os.path.join(d, 'optimized.json')
+        env = dict(os.environ, PYTHONOPTIMIZE='1', VERIF_SEED=str(seed), VERIF_TIER=tier, PYTHONHASHSEED='0')
+        env[OPT_CHILD_ENV] = '1'
+        try:
+            p = subprocess.run([PYTHON, os.path.join(ROOT, 'check'), 'C12', '--tier', tier, '--shard', '0/1', '--out', out],
+                               env=env, stdout=subprocess.DEVNULL, stderr=subprocess.PIPE, cwd=ROOT, timeout=600)
+        except subprocess.TimeoutExpired:
+            run.inconclusive.append('the PYTHONOPTIMIZE=1 child hit its 600 s watchdog')
+            return
+        if not os.path.exists(out):
+            tail = (p.stderr or b'').decode(errors='replace').strip().splitlines()[-3:]
+            run.inconclusive.append('the PYTHONOPTIMIZE=1 child died (rc=%s): %s' % (p.returncode, ' | '.join(tail)))
+            return
+        with open(out) as f:
+            dd = json.load(f)
+    if 'optimized_interpreter_pass' not in dd.get('extra', {}) and not dd.get('violations') and not dd.get('inconclusive'):
+        run.inconclusive.append('the PYTHONOPTIMIZE=1 child reported nothing')
+    run.merge(dd)
+
+
 def replay(run, case):
     c = case['case']
+    if case.get('fields', {}).get('interpreter') == '-O' and not sys.flags.optimize:
+        # the case was observed in the optimized child: replay it the same way
+        env = dict(os.environ, PYTHONOPTIMIZE='1')
+        return subprocess.run([PYTHON] + sys.argv, env=env).returncode
     n, viols = judge(c)
     fn = c.get('function')
     rel = [v for v in viols if fn is None or v['fields'].get('function') == fn] or viols
